@@ -1,0 +1,51 @@
+//go:build verif
+
+package mmap
+
+// Contracts for the gvc verifier (/verif). Comment-only; never compiled into
+// a normal build.
+
+// Well-formedness of a loaded scanner: the section offsets computed from the
+// (untrusted) object count lie inside the mapped idx file, in order.
+//gvc:pred wf_scanner(s) = (s.hashSize == 20 || s.hashSize == 32) && 0 <= s.count && s.count <= 0xffffffff && s.fanoutStart == 8 && s.namesStart == 8 + 1024 && s.crcStart == s.namesStart + s.count * s.hashSize && s.off32Start == s.crcStart + s.count * 4 && s.off64Start == s.off32Start + s.count * 4 && s.off64Start <= s.trailerStart && s.trailerStart == len(s.idxMmap) - 2 * s.hashSize
+
+// offset: answers only from inside the offset tables of a well-formed idx;
+// positions outside the 32-bit table and 64-bit indices outside the 64-bit
+// table are rejected (property C10: malformed files are rejected rather than
+// answered from).
+//gvc:func (*PackScanner).offset
+//gvc:  props C10 C53
+//gvc:  theory int
+//gvc:  results off err
+//gvc:  requires wf: wf_scanner(s)
+//gvc:  let o32 = s.idxMmap[s.off32Start + pos * 4] * 16777216 + s.idxMmap[s.off32Start + pos * 4 + 1] * 65536 + s.idxMmap[s.off32Start + pos * 4 + 2] * 256 + s.idxMmap[s.off32Start + pos * 4 + 3]
+//gvc:  let n64 = (s.trailerStart - s.off64Start) / 8
+//gvc:  ensures intable: err == nil ==> 0 <= pos && pos < s.count
+//gvc:  ensures small: err == nil && o32 < 0x80000000 ==> off == o32
+//gvc:  ensures large: err == nil && o32 >= 0x80000000 ==> o32 - 0x80000000 < n64
+//gvc:  ensures accept32: 0 <= pos && pos < s.count && o32 < 0x80000000 ==> err == nil
+//gvc:  ensures accept64: 0 <= pos && pos < s.count && o32 >= 0x80000000 && o32 - 0x80000000 < n64 ==> err == nil
+//gvc:end
+
+//gvc:func (*PackScanner).fanoutEntry
+//gvc:  props C10 C53
+//gvc:  theory int
+//gvc:  requires wf: wf_scanner(s)
+//gvc:  ensures range: 0 <= result && result <= 0xffffffff
+//gvc:end
+
+//gvc:func compareObjectID
+//gvc:  props C10 C53
+//gvc:  theory int
+//gvc:  requires idx: 0 <= idx && idx <= 0xffffffff && len(want) <= 64
+//gvc:  ensures range: -1 <= result && result <= 1
+//gvc:end
+
+//gvc:func (*PackScanner).getObject
+//gvc:  props C10 C53
+//gvc:  theory int
+//gvc:  opt coarse
+//gvc:  opt frame args
+//gvc:  opt safety
+//gvc:  requires wf: s != nil
+//gvc:end
